@@ -265,6 +265,18 @@ fn emit_wrapped_loop_choice_body(
         branch_nodes.extend(choice.body.clone());
     }
 
+    // With start content the branch is prefixed below by the seven tokens that replay the
+    // `s` container; index paths inside the body (switch / conditional rejoin points) must
+    // count them.
+    let shifted_scope;
+    let branch_scope = if choice.has_start_content {
+        let mut shifted = branch_scope.clone();
+        shifted.param_offset += 7;
+        shifted_scope = shifted;
+        &shifted_scope
+    } else {
+        branch_scope
+    };
     let has_nested_choices = branch_nodes.iter().any(|n| matches!(n, Node::Choice(_)));
     let mut branch_container = if has_nested_choices {
         emit_nodes_with_continuation(
